@@ -136,7 +136,7 @@ func VerifC12_PgDataRowRewrite() {
 // replacing one parameter through the BoundValue API the other parameters keep their exact bytes and NULL-ness.
 func VerifC12_PgBindRewrite() {
 	np := verif.Choose("np", 1, 2+verif.Tier())
-	body := []byte{'p', 0, 's', 0} // portal "p", statement "s"
+	body := []byte{'p', 0, 's', 0}  // portal "p", statement "s"
 	body = append(body, 0, 1, 0, 0) // one format code: text
 	body = append(body, 0, byte(np))
 	shapes := make([]int, np)
